@@ -410,3 +410,68 @@ pub fn eval_tol(n_terms: usize, deg: usize, abs_sum: &Q) -> f64 {
     // guard against subnormal nonsense: allow at least 4 ulps of the smallest normal scale
     t * 1.0000001 + f64::MIN_POSITIVE
 }
+
+// ---------------------------------------------------------------------------------------
+// Magnitude polynomials: f64 maps monomial -> sum of |contributions| (no cancellation),
+// used for rigorous per-coefficient rounding bounds of transformed functions.
+// ---------------------------------------------------------------------------------------
+
+pub type AbsPoly = BTreeMap<Mono, f64>;
+
+pub fn abs_of(f: &v1::Function, floor1: bool) -> AbsPoly {
+    let mut r = AbsPoly::new();
+    for (ids, c) in raw_terms(f) {
+        let mut k = ids.clone();
+        k.sort_unstable();
+        *r.entry(k).or_default() += if floor1 { c.abs().max(1.0) } else { c.abs() };
+    }
+    r
+}
+
+pub fn abs_var(id: u64) -> AbsPoly {
+    let mut m = AbsPoly::new();
+    m.insert(vec![id], 1.0);
+    m
+}
+
+pub fn abs_add(a: &AbsPoly, b: &AbsPoly) -> AbsPoly {
+    let mut r = a.clone();
+    for (k, v) in b {
+        *r.entry(k.clone()).or_default() += v;
+    }
+    r
+}
+
+pub fn abs_mul(a: &AbsPoly, b: &AbsPoly) -> AbsPoly {
+    let mut r = AbsPoly::new();
+    for (k1, c1) in a {
+        for (k2, c2) in b {
+            let mut k = k1.clone();
+            k.extend_from_slice(k2);
+            k.sort_unstable();
+            *r.entry(k).or_default() += c1 * c2;
+        }
+    }
+    r
+}
+
+/// Coefficient-wise comparison: exact when `exact_required`, otherwise
+/// |got - exact| <= gamma(k) * mag(m) + drop_factor * EPS * mag1(m) + 2 EPS per monomial.
+pub fn compare_poly(got: &Poly, exact: &Poly, exact_required: bool, mag: &AbsPoly, mag1: &AbsPoly, k: usize, drop_factor: f64) -> Result<(), String> {
+    if exact_required {
+        if got != exact {
+            return Err(format!("not exact:\n got   = {}\n exact = {}", got.describe(), exact.describe()));
+        }
+        return Ok(());
+    }
+    let keys: BTreeSet<&Mono> = got.terms.keys().chain(exact.terms.keys()).collect();
+    for key in keys {
+        let g = got.terms.get(key).cloned().unwrap_or_else(Q::zero);
+        let e = exact.terms.get(key).cloned().unwrap_or_else(Q::zero);
+        let tol = gamma(k) * mag.get(key).copied().unwrap_or(0.0) + f64::EPSILON * (drop_factor * mag1.get(key).copied().unwrap_or(1.0).max(1.0) + 2.0);
+        if (g.clone() - e.clone()).abs() > q(tol) {
+            return Err(format!("coefficient of {:?}: got {:e}, exact {:e}, tolerance {:e}", key, q_to_f64(&g), q_to_f64(&e), tol));
+        }
+    }
+    Ok(())
+}
